@@ -21,18 +21,25 @@ Local Open Scope Z_scope.
 
 Definition rgb_bytes (c : rgb) : list N := let '(r, g, b) := c in [0%N; r; g; b].
 
+(* one visible cell: does the writer emit the foreground / the background colour? *)
+Definition tnd_wf (pal : list rgb) (first : bool) (prev : TextAttribute) (c : cell) : bool :=
+  first || ((1 <=? c_ch c)%N && (c_ch c <=? 6)%N)
+  || negb (rgb_eqb (pal_get_rgb pal (foreground_color prev)) (pal_get_rgb pal (foreground_color (c_attr c))))
+  || negb (Bool.eqb (is_bold prev) (is_bold (c_attr c))).
+Definition tnd_wb (pal : list rgb) (first : bool) (prev : TextAttribute) (c : cell) : bool :=
+  first || negb (rgb_eqb (pal_get_rgb pal (background_color prev)) (pal_get_rgb pal (background_color (c_attr c)))).
+(* the foreground index whose colour is written: bold adds 8 *)
+Definition tnd_fgi (a : TextAttribute) : N := if is_bold a then (foreground_color a + 8)%N else foreground_color a.
+
 (* one visible cell: returns the bytes and the new `attr` *)
 Definition tnd_cell (pal : list rgb) (first : bool) (prev : TextAttribute) (c : cell) : list N * TextAttribute :=
   let cur := c_attr c in
   let ch := c_ch c in
-  let wf := first || ((1 <=? ch)%N && (ch <=? 6)%N)
-            || negb (rgb_eqb (pal_get_rgb pal (foreground_color prev)) (pal_get_rgb pal (foreground_color cur)))
-            || negb (Bool.eqb (is_bold prev) (is_bold cur)) in
-  let wb := first || negb (rgb_eqb (pal_get_rgb pal (background_color prev)) (pal_get_rgb pal (background_color cur))) in
+  let wf := tnd_wf pal first prev c in
+  let wb := tnd_wb pal first prev c in
   if wf || wb then
     let cmd := ((if wf then TUNDRA_COLOR_FOREGROUND else 0) + (if wb then TUNDRA_COLOR_BACKGROUND else 0))%N in
-    let fgi := if is_bold cur then (foreground_color cur + 8)%N else foreground_color cur in
-    ([cmd; ch] ++ (if wf then rgb_bytes (pal_get_rgb pal fgi) else [])
+    ([cmd; ch] ++ (if wf then rgb_bytes (pal_get_rgb pal (tnd_fgi cur)) else [])
                ++ (if wb then rgb_bytes (pal_get_rgb pal (background_color cur)) else []), cur)
   else ([ch], prev).
 
